@@ -22,3 +22,20 @@ Proof.
   destruct (callers_time parse (CmdFanTimeoutS * 1000) CmdWaitDelayMs ck b) as [_ [E2 E3]].
   rewrite E1, E2, E3. repeat split; now apply safe_cmd_bounded.
 Qed.
+
+(* the constants of the source stay within the numbers of the property *)
+Lemma within_property_numbers :
+  CmdSensorTimeoutS * 1000 <= prop_timeout_ms /\ CmdFanTimeoutS * 1000 <= prop_timeout_ms
+  /\ CmdWaitDelayMs + slack_ms <= small_margin_ms.
+Proof. repeat split; discriminate. Qed.
+
+Lemma callers_within_property_bound (parse : text -> option f64) ck b :
+  let B := prop_timeout_ms + (small_margin_ms - slack_ms) in
+  time_le (snd (sensor_get_value parse (CmdSensorTimeoutS * 1000) CmdWaitDelayMs ck b)) B
+  /\ time_le (snd (fan_get_int parse (CmdFanTimeoutS * 1000) CmdWaitDelayMs ck b)) B
+  /\ time_le (snd (fan_set_pwm (CmdFanTimeoutS * 1000) CmdWaitDelayMs ck b)) B.
+Proof.
+  cbv zeta. destruct (callers_bounded parse ck b) as [[t1 [E1 L1]] [[t2 [E2 L2]] [t3 [E3 L3]]]].
+  destruct within_property_numbers as [A1 [A2 A3]].
+  repeat split; eexists; (split; [eassumption|]); lia.
+Qed.
